@@ -137,6 +137,7 @@ inductive Kind where
   | single        -- one writing transaction, mirrors afterwards
   | batched       -- loop of independent transactions (DESIGN §6.2)
   | storeSector   -- reservation transaction, data write + sync, compensating transaction on failure
+  | indexer       -- index.Manager.syncDB: per batch one writing transaction, follow-up actions, in-memory tip
 deriving DecidableEq, Repr
 
 structure OpShape where
@@ -156,6 +157,7 @@ def entryOK (o : OpShape) : Bool :=
   | .single => o.pre.isEmpty && o.post.all Step.isMirror && (!o.mirrored || !o.post.isEmpty)
   | .batched => o.pre.isEmpty && o.post.isEmpty && !o.mirrored
   | .storeSector => o.pre.isEmpty && o.post == [.dataWrite, .sync] && !o.mirrored
+  | .indexer => o.pre.isEmpty && o.post.all Step.isMirror && !o.post.isEmpty
 
 def ShapeOK (t : List OpShape) : Bool := t.all entryOK
 
@@ -232,8 +234,7 @@ def codeShapes : List OpShape := [
   M "A.BudgetCommit"    "host/accounts/budget.go:123 (DebitAccount :130, balances :141-154)" [.memWrite],
   M "W.Register"        "webhooks/webhooks.go:155 (store :165, hooks/scopes :179-181)" [.memWrite, .memWrite],
   M "W.Update"          "webhooks/webhooks.go:207 (store :215, hooks/scopes :229-233)" [.memWrite, .memWrite],
-  M "W.Remove"          "webhooks/webhooks.go:186 (store :194, hooks/scopes :201-202)" [.memWrite, .memWrite],
-  M "I.SyncBatch"       "index/update.go:54 (UpdateChainState), :92 (m.index = index)" [.memWrite]
+  M "W.Remove"          "webhooks/webhooks.go:186 (store :194, hooks/scopes :201-202)" [.memWrite, .memWrite]
 ]
 
 /-- Operations whose shape is NOT of the all-or-nothing form in the current
@@ -242,7 +243,11 @@ def deviantShapes : List OpShape := [
   { name := "S.UpdateSettings", src := "host/settings/settings.go:242 (m.settings = s :256, store.UpdateSettings :260)",
     kind := .single, pre := [.memWrite], post := [], mirrored := true },
   { name := "P.Update", src := "host/settings/pin/pin.go:227 (m.settings = p :247, store.UpdatePinnedSettings :249)",
-    kind := .single, pre := [.memWrite], post := [], mirrored := true }
+    kind := .single, pre := [.memWrite], post := [], mirrored := true },
+  -- syncDB: the batch commits (update.go:54-82), then three ProcessActions calls that read and may write the
+  -- database (:84-90, each returns early on error), and only then `m.index = index` (:92-94)
+  { name := "I.SyncDB", src := "index/update.go:25 (UpdateChainState :54, ProcessActions :84-90, m.index = index :93)",
+    kind := .indexer, pre := [], post := [.beginTx, .stmt, .commit, .memWrite], mirrored := true }
 ]
 
 def findShape (name : String) : Option OpShape :=
@@ -259,6 +264,8 @@ def OpShape.expand (o : OpShape) (ns : List Nat) : Shape :=
   | .batched, _ => batches ns
   | .storeSector, n :: _ => singleTx n o.post
   | .storeSector, [] => singleTx 0 o.post
+  | .indexer, n :: _ => singleTx n o.post
+  | .indexer, [] => singleTx 0 o.post
 
 /-! ## StoreSector: reservation, data write, compensation (volumes.go:154-224) -/
 
@@ -439,16 +446,31 @@ def observeHooks (s : Hooks) : List Hook × (List Nat → List Nat) := (s.mem, m
 
 def reachHooks (ops : List HOp) : Hooks := ops.foldl hstep { table := [], mem := [] }
 
-/-- settings.ConfigManager / pin.Manager: persisted row (none = no row yet), in-memory copy -/
+/-- settings.ConfigManager / pin.Manager: persisted row (none = no row yet) and in-memory copy, each a
+value with a revision number.  `UpdateSettings` (persist/sqlite/settings.go:87-116) stores the value with
+`settings_revision + 1` (0 on the first insert); the manager keeps the caller's struct, revision included. -/
 structure Conf (γ : Type) where
-  row : Option γ
-  mem : γ
+  row : Option (γ × Nat)
+  mem : γ × Nat
+
+inductive COp (γ : Type) where
+  | update (v : γ) (callerRev : Nat)     -- a successful UpdateSettings / Update
+
+def cstep {γ : Type} (s : Conf γ) : COp γ → Conf γ
+  | .update v callerRev =>
+    { row := some (v, match s.row with
+                      | some (_, r) => r + 1
+                      | none => 0),
+      mem := (v, callerRev) }
 
 /-- `NewConfigManager`: `store.Settings()`; `ErrNoSettings` ⇒ the initial settings -/
-def restartConf {γ : Type} (dflt : γ) (s : Conf γ) : Conf γ :=
+def restartConf {γ : Type} (dflt : γ × Nat) (s : Conf γ) : Conf γ :=
   match s.row with
   | some r => { s with mem := r }
   | none => { s with mem := dflt }
+
+def reachConf {γ : Type} (dflt : γ × Nat) (ops : List (COp γ)) : Conf γ :=
+  ops.foldl cstep { row := none, mem := dflt }
 
 /-- what each constructor does (read from the code) -/
 structure Ctor where
